@@ -318,7 +318,9 @@ def build(
                     raise JMCBuildError(
                         "Something went wrong when deleting files, try deleting the namespace folder manually and try again."
                     ) from error
-        if minecraft_folder.is_dir():
+        if statics and minecraft_folder.is_dir():
+            rmtree(minecraft_folder, statics)
+        elif minecraft_folder.is_dir():
             try:
                 shutil.rmtree(minecraft_folder)
             except OSError as error:
